@@ -388,6 +388,8 @@ def run_cli_collect(argv):
         try:
             with common.watchdog(40):
                 rc = gemato.cli.main(argv)
+            if rc is None:
+                rc = 0            # sys.exit(None) is exit status 0
         except SystemExit as e:
             rc = e.code if isinstance(e.code, int) else 2
         except common.CaseTimeout:
@@ -472,7 +474,7 @@ def chain_case(r):
     contents0 = {dirs[D] + '/f': b'payload data\n'}
     for i in range(0, D + 1):
         contents0[(dirs[i] + '/' if dirs[i] else '') + 'g%d' % i] = b'file at level %d\n' % i
-    tamper = r.choice(['change', 'change-same-size', 'add', 'remove'])
+    tamper = r.choice(['change', 'change-same-size', 'add', 'remove', 'remove-with-manifest'])
     contents1 = dict(contents0)
     target = dirs[D] + '/f'
     if tamper == 'change':
@@ -483,7 +485,7 @@ def chain_case(r):
         contents1[dirs[D] + '/added'] = b'new file\n'
         target = dirs[D] + '/added'
     else:
-        del contents1[target]
+        del contents1[target]          # ('remove-with-manifest': the Manifest of level k goes as well, see below)
     hs = r.sample(GT.GOOD_HASHES, r.choice([0, 1, 1, 2, 3]))
     if r.random() < 0.15:
         hs = hs + [r.choice(['STREEBOG512', 'FOO', 'WHIRLPOOL', 'sha1'])]
@@ -535,6 +537,11 @@ def chain_case(r):
         if extra_level == i:
             ename = 'Manifest.files' + ('.' + fmts[i] if fmts[i] else '')
             t1.link(t1.lookup(d), ename, t1.mkfile(1, m0[('x', i)]))
+    if tamper == 'remove-with-manifest':
+        # the attacker removes the file together with the Manifest that listed it (and whatever that one referenced)
+        pk = (dirs[k] + '/' if dirs[k] else '') + mnames[k]
+        dk, nk = os.path.split(pk)
+        t1.unlink(t1.lookup(dk), nk)
     c.tree = t1
     c.meta.update(dirs=dirs, files=sorted(contents1), manifests=[(dirs[i] + '/' if dirs[i] else '') + mnames[i] for i in range(D + 1)],
                   mutations=[tamper], k=k, depth=D, order_seed=r.randint(0, 3), target=target)
@@ -546,7 +553,7 @@ def chain_case(r):
     elif api == 'find_dist_entry':
         c.ops = [['find_dist_entry', 'dist.tar', dirs[D]]]
     else:
-        c.ops = [[api, target if tamper != 'remove' else dirs[D] + '/f']]
+        c.ops = [[api, target if not tamper.startswith('remove') else dirs[D] + '/f']]
     c.meta['api'] = api
     # the same loader has answered harmless questions about the untouched top level before (what `gemato verify` does first:
     # find_timestamp; lookups of top-level files): nothing they load may become trusted without its check
@@ -563,7 +570,7 @@ def chain_case(r):
     c.meta['broken'] = (dirs[k] + '/' if dirs[k] else '') + mnames[k]
     # unless the tampering left the level-k Manifest bytes unchanged (cannot happen: its content lists the file)
     good = [h for h in hs if h in GT.GOOD_HASHES]
-    c.meta['changed'] = (len(m0[k]) != len(m1[k])) or (bool(good) and m0[k] != m1[k])
+    c.meta['changed'] = (len(m0[k]) != len(m1[k])) or (bool(good) and m0[k] != m1[k]) or tamper == 'remove-with-manifest'
     c.meta['unsupported'] = [h for h in hs if h not in GT.GOOD_HASHES]
     return c
 
@@ -769,6 +776,36 @@ def cli_unreadable_outer(ctx):
                 else:
                     done += 1
     ctx.count('cli:unreadable-outer-manifest', n, n, dist={'runs_not_succeeding': done})
+    # a compressed sub-Manifest whose stream is damaged (the parent's entry matches the damaged file): reading it fails
+    # with an error that carries no errno; neither verify nor update may end with exit status 0
+    import gzip as _gzip
+    import bz2 as _bz2
+    n2 = ok2 = 0
+    with ET.Scratch() as sc:
+        for _ in range(60 if ctx.tier == 'quick' else 600):
+            fmt = r.choice(['gz', 'bz2'])
+            good = (_gzip.compress if fmt == 'gz' else _bz2.compress)(b'DATA f 2\n' * 40)
+            k = r.randrange(len(good) // 2, len(good) - 4)
+            bad = good[:k] + bytes([good[k] ^ 0x55]) + good[k + 1:]
+            t = GT.Tree()
+            t.add_dir('sub')
+            t.add_file('sub/f', b'x\n')
+            t.add_file('sub/Manifest.' + fmt, bad)
+            t.add_file('Manifest', (ET.entry_line('MANIFEST', 'sub/Manifest.' + fmt, bad, ['SHA1']) + '\n').encode())
+            b, s2 = sc.fresh()
+            try:
+                t.realise(b, s2)
+                cmd = r.choice([['verify', '--no-openpgp-verify'], ['verify', '--keep-going', '--no-openpgp-verify'], ['update', '--hashes', 'SHA1']])
+                rc, items = run_cli_collect(['gemato'] + cmd + [b])
+            finally:
+                sc.cleanup(b, s2)
+            n2 += 1
+            if rc == 0:
+                ctx.violation('spec', f'gemato {" ".join(cmd)} exited 0 although sub/Manifest.{fmt} cannot be read (damaged {fmt} stream)',
+                              {'format': fmt, 'damaged_byte': k, 'command': cmd, 'exit': rc, 'log': items})
+            else:
+                ok2 += 1
+    ctx.count('cli:damaged-compressed-manifest', n2, n2, dist={'runs_not_exiting_0': ok2})
 
 
 # --------------------------------------------------------------------------- C16
@@ -885,7 +922,7 @@ def c16(ctx):
     specs, total = graph_cases(r, quick)
     cases = [graph_case(s) for s in specs]
     # a second filesystem mounted in via symlink at any position (directory on device 2)
-    for _ in range(150 if quick else 2000):
+    for _ in range(220 if quick else 2500):
         c = gen_verify_case(r, n_mut=0)
         GT.mutate(r, c, {p: b'' for p in c.meta['files']}, {m: b'' for m in c.meta['manifests']}, 'xdev-dir')
         if r.random() < 0.5:
@@ -893,6 +930,12 @@ def c16(ctx):
         c.allow_xdev = r.random() < 0.3
         c.meta['mutations'] = ['xdev-dir']
         c.ops = [['verify', r.choice([''] + [d for d in c.meta['dirs'] if d]), r.choice([0, 1]), []]]
+        if r.random() < 0.5:
+            # the single-path entry points on an object of the other filesystem
+            xds = [(d + '/' if d else '') + 'xd' for d in [''] + [d for d in c.meta['dirs'] if d] if c.tree.lookup((d + '/' if d else '') + 'xd') is not None]
+            if xds:
+                xd = r.choice(xds)
+                c.ops = [[r.choice(['assert_path_verifies', 'assert_path_verifies', 'verify_path']), r.choice([xd + '/inner', xd + '/inner', xd + '/inner', xd + '/.hidden', xd])]]
         cases.append(c)
     # the update / create walks (incl. the scan for unregistered Manifests) over the same hazards
     import p_update as PU
